@@ -127,6 +127,10 @@ class Unit:
         """
         if not concentration:
             raise ValueError("Concentration must be of the form '1 umol/mL'.")  # ('' has no last character to look at)
+        if (concentration != concentration.strip() or '  ' in concentration or ' /' in concentration
+                or '/ ' in concentration or any(character.isspace() and character != ' ' for character in concentration)):
+            # (as in a quantity: one space between a value and its unit, and no other whitespace)
+            raise ValueError("Concentration must be of the form '1 umol/mL'.")
         if '/' not in concentration:
             if concentration[-1] == 'm':
                 concentration = concentration[:-1] + 'mol/kg'
